@@ -12,6 +12,10 @@ CLAIMED = {
             "Seeded search: each run is one seeded configuration x workload x network behaviour x task schedule of a real client and a real listener joined by the simulated transport; every received message is compared (structure and re-encoded bytes) with a FIFO reference model per link, and every operation must complete within a virtual deadline. A clean batch is evidence, not proof; reach probes and seeded-fault drills (DESIGN 2.11) say what the batch reached.",
             "Trusted: the simulator (executor, SimStream, choice stream), tokio's paused clock, and the crate's own message encoder as the definition of 'the bytes the sender serialised'. Assumes the connection stays up, as the property states.",
             "FIFO reference model per link over a real client/listener pair", "3 C01"),
+    "C02": ("exploration",
+            "Seeded search over disposition histories: (a) a real sender keeps many plain and batchable deliveries in flight while a real receiver applies a seeded, distinguishable outcome to each (one by one, in *_all batches, out of order, through the disposer, late) under every settle-mode combination; (b) real senders on 1-3 links face a scripted receiver that issues single-id, range (also spanning links), duplicate, non-terminal-first, unsettled-then-settled and unknown-id dispositions interleaved with further sends. Every send must resolve exactly once with the outcome planned for that very delivery (pre-settled sends: accepted at once); in rcv-settle-mode second the wire must show the sender's settling disposition for every delivery-id the receiver reported a terminal outcome for, and no side may keep reporting on a delivery that was sent settled.",
+            "Trusted: the simulator, refcodec. Retention in the unsettled maps is judged through its visible effects on the wire and on resolved sends, not through the resume path.",
+            "per-delivery settlement model: planned outcome vs resolved future, settling echo on the wire", "3 C02"),
     "C07": ("exploration",
             "Seeded search over window histories: a real client session runs against a scripted peer that plays the receiving session end and issues seeded flow frames (window 0, shrinking windows, unset next-incoming-id, echo) while 1-3 real sender links push single- and multi-frame transfers; initial next-outgoing-id values include those within a window of 2^31 and 2^32. The wire monitor checks every transfer frame against the windows the peer had advertised (serial arithmetic; strict after simulator-proven quiescence), every reported next-outgoing-id/next-incoming-id against counted frames, and the scenario checks that held transfers come out exactly once, in order, unchanged, and all of them within a virtual deadline after the final window opening.",
             "Trusted: the simulator, the independent frame splitter/codec (refcodec), tokio's paused clock. In-flight rule: a transfer is accepted if it fits any window statement not provably superseded, so races between flows and transfers in flight never alarm.",
